@@ -80,6 +80,20 @@ pub enum AvailableValue {
     MemoryAtCsr(CsrImm, i32),
 }
 
+impl AvailableValue {
+    /// The register whose *current* value this description is relative to, if any.
+    ///
+    /// Such a description stops being true when that register is overwritten.
+    #[must_use]
+    pub fn relative_to_current(&self) -> Option<Register> {
+        match self {
+            AvailableValue::RegisterWithScalar(reg, _)
+            | AvailableValue::MemoryAtRegister(reg, _) => Some(*reg),
+            _ => None,
+        }
+    }
+}
+
 /// Performs the available value analysis on the graph.
 ///
 /// This function contains the logic for determining which values are available
@@ -152,10 +166,11 @@ impl GenerationPass for AvailableValuePass {
 
                 // out[n] = gen[n] U (in[n] - kill[n]) U (callee_saved if n is entry)
                 let mut out_reg_n = node.reg_values_in();
-                out_reg_n -= node.kill_reg().iter();
+                let mut killed = node.kill_reg();
                 if node.calls_to().is_some() {
-                    out_reg_n -= Register::return_addr_set().iter();
+                    killed |= Register::return_addr_set();
                 }
+                out_reg_n -= killed.iter();
                 if let Some((reg, reg_value)) = node.gen_reg_value() {
                     out_reg_n.insert(reg, reg_value);
                 }
@@ -212,6 +227,22 @@ impl GenerationPass for AvailableValuePass {
                 rule_push_value_to_csr_memory(&node.node(), &mut out_memory_n, &out_reg_n);
                 rule_known_values_to_stack(&mut out_memory_n, &node.reg_values_in());
                 // TODO stack reset?
+
+                // A value described relative to the current content of a register
+                // ("t0 + k") only holds while that register keeps its value: forget
+                // such descriptions of the registers this node overwrites. (Those
+                // that could be resolved with the values before the node have been
+                // rewritten by the rules above.)
+                out_reg_n.retain(|_, value| {
+                    !value
+                        .relative_to_current()
+                        .is_some_and(|reg| killed.contains(&reg))
+                });
+                out_memory_n.retain(|_, value| {
+                    !value
+                        .relative_to_current()
+                        .is_some_and(|reg| killed.contains(&reg))
+                });
 
                 // If either of the outs changed, replace the old outs with the new outs
                 // and mark that we changed something.
